@@ -150,6 +150,61 @@ def read_case(args):
     return 1, vs
 
 
+def reunlock_case(args):
+    """ONE Repository object writes for two users with independent keys in turn (unlocked again in between, no
+    close): what it stores for each must decode with that user's key alone, exactly like objects written by a fresh
+    process."""
+    ti, ci, ha, ch, order = args
+    sc = H.worker_scratch()
+    root = sc.sub()
+    written = W.write_tree(root / 'src', TREES[ti])
+    model = {p: v for p, v in written.items()}
+    st = W.Store()
+    W.set_random(f'c14r-{args!r}')
+    W.set_clock(dt.datetime(2024, 2, 29, 23, 59, 58))
+    sig0 = {'part': 'one-object-two-keys', 'cipher': ci['name'], 'hash': ha['name']}
+    detail0 = {'args': args}
+    pw = {'A': b'p\xc3\xa4ss word', 'C': b'another password'}
+    try:
+        keyA = W.run(W.a_init, st, settings(ci, ha, ch, KDFS[0]), pw['A'])
+        keyC = W.run(W.a_add_key, st, W.User('A', pw['A'], keyA), pw['C'], False)
+    except Exception as e:
+        shutil.rmtree(root, ignore_errors=True)
+        return 1, [(dict(sig0, what='init-failed'), dict(detail0, err=repr(e)[:200]))]
+    users = {'A': W.User('A', pw['A'], keyA), 'C': W.User('C', pw['C'], keyC)}
+
+    async def go():
+        first, second = order
+        repo = await W.a_open(st, users[first], N=2)
+        with W.captured():
+            await repo.snapshot(paths=[root / 'src'], note='a note')
+            await repo.unlock(password=users[second].password, key=users[second].key)
+            await repo.snapshot(paths=[root / 'src'], note='a note')
+            await repo.unlock(password=users[first].password, key=users[first].key)
+            t = sc.sub()
+            await repo.restore(path=t)
+            shutil.rmtree(t, ignore_errors=True)
+            await repo.close()
+
+    try:
+        W.run(go)
+    except Exception as e:
+        shutil.rmtree(root, ignore_errors=True)
+        return 1, [(dict(sig0, what='snapshot-failed'), dict(detail0, err=repr(e)[:200]))]
+    vs = []
+    for u, usr in users.items():
+        try:
+            rd = F.Reader(st.o, usr.password, usr.key)
+        except Exception as e:
+            vs.append((dict(sig0, what='reader-cannot-open', user=u), dict(detail0, err=repr(e)[:200])))
+            continue
+        mine = {k: v for k, v in st.o.items() if k == 'config' or (k.startswith('snapshots/') and rd.owns_snapshot_name(k))
+                or (k.startswith('data/') and rd.owns_chunk_name(k))}
+        vs += verify_with_reader(mine, usr.password, usr.key, model, 'a note', dict(sig0, user=u), detail0)
+    shutil.rmtree(root, ignore_errors=True)
+    return 1, vs
+
+
 # ---- every completion order of one snapshot with repeated, non-adjacent chunks
 _ORD = {}
 
@@ -264,6 +319,14 @@ def write_case(args):
 
 
 def replay(case):
+    if isinstance(case.get('args'), list) and len(case['args']) == 5 and isinstance(case['args'][4], (list, tuple)):
+        a = case['args']
+        n, vs = reunlock_case((a[0], a[1], a[2], tuple(a[3]), tuple(a[4])))
+        return {'violations': [v[0] for v in vs]}
+    return _replay_other(case)
+
+
+def _replay_other(case):
     if 'params' in case:
         r = run_ord(case['params'], case.get('choices', []))
         return {'violations': [v[0] for v in r['viol']]}
@@ -301,6 +364,13 @@ def main():
             for sig, d in vs:
                 d = dict(d, args=[a if not isinstance(a, type) else a.__name__ for a in d['args']])
                 chk.violation(sig, d)
+        ucases = [(ti, ci, ha, ch, order) for ti in range(len(TREES)) for ci in CIPHERS[1:] for ha in (HASHES[0], HASHES[2])
+                  for ch in (CHUNKERS[0], CHUNKERS[1]) for order in (('A', 'C'), ('C', 'A'))]
+        for k, vs in common.pmap(reunlock_case, common.shuffled(ucases, 'u'), ordered=False, chunksize=4):
+            n += k
+            for sig, d in vs:
+                chk.violation(sig, d)
+        chk.coverage['one_object_two_keys_cases'] = len(ucases)
         chk.sample({'part': 'read', 'tree': sorted(TREES[1]), 'cipher': CIPHERS[1], 'hash': HASHES[2]})
         tot = explore.Agg()
         for enc in (False, True):
